@@ -805,7 +805,7 @@ func checkUnary(c *Ctx) {
 					s := x.str(u.X)
 					val := ""
 					// s = evaluateExpression($e.<fld>,…)#0.<Alt>
-					if strings.Contains(s, "."+fld.Name()+",") {
+					if strings.Contains(s, "."+fld.Name()+",") || strings.Contains(s, "."+fld.Name()+")#0.") {
 						val = "V" + s[strings.LastIndex(s, "."):]
 					}
 					got = callee.Name() + "(" + u.Op.String() + val + ")"
